@@ -16,6 +16,26 @@ def num(x):
     return r
 
 
+def spelled(x, style, sign=True):
+    """num(x), or - under style['numspell'] - the same float as other programs and people write it: no zero in front
+    of the point ('.5', '-.25'), a bare point after a whole float ('5.'), a capital E, an explicit plus sign.
+    Ints stay as they are (the parser types them as ints)."""
+    s = num(x)
+    if not style.get("numspell") or isinstance(x, int):
+        return s
+    t = s
+    if t.startswith("0.") and len(t) > 2:
+        t = t[1:]
+    elif t.startswith("-0.") and len(t) > 3:
+        t = "-" + t[2:]
+    elif t.endswith(".0") and "e" not in t:
+        t = t[:-1]
+    elif sign and not t.startswith("-") and len(t) % 2 == 0:
+        t = "+" + t
+    t = t.replace("e", "E")
+    return t if float(t) == float(s) else s
+
+
 def _join(tokens, style):
     if style.get("cont"):
         # break the value over indented continuation lines
@@ -31,7 +51,7 @@ def potdef_tokens(pd, style):
     toks = []
     for rg in pd["ranges"]:
         if rg["m"] is not None:
-            toks.append(rg["m"] + " " * style.get("inner", 0) + num(rg["s"]))
+            toks.append(rg["m"] + " " * style.get("inner", 0) + spelled(rg["s"], style, sign=False))
         toks.extend(simple_tokens(rg["body"], style))
     return toks
 
@@ -39,18 +59,18 @@ def potdef_tokens(pd, style):
 def simple_tokens(b, style):
     k = b["k"]
     if k == "form":
-        return ["as." + b["name"]] + [num(p) for p in b["p"]]
+        return ["as." + b["name"]] + [spelled(p, style) for p in b["p"]]
     if k == "custom":
-        return [b["name"]] + [num(p) for p in b["p"]]
+        return [b["name"]] + [spelled(p, style) for p in b["p"]]
     if k == "table":
         return [b["name"]]
     if k == "splinekw":
-        return [b["name"]] + [num(p) for p in b["p"]]
+        return [b["name"]] + [spelled(p, style) for p in b["p"]]
     if k == "mod":
         sp = " " * style.get("inner", 0)
         args = [" ".join(potdef_tokens(a, dict(style, cont=False))) for a in b["args"]]
         if b["m"] == "trans":
-            args.append("as.constant " + num(b["x"]))
+            args.append("as.constant " + spelled(b["x"], style))
         inner = (sp + "," + sp + (" " if not sp else "")).join(args)
         return [b["m"] + sp + "(" + sp + inner + sp + ")"]
     raise ValueError(b)
